@@ -191,6 +191,10 @@ def st_world(draw, prof: Optional[Dict[str, Any]] = None) -> Dict[str, Any]:
                 "fleet": draw(st.sampled_from(fleet_ids)) if nf else None,
             }
         )
+        # a few rows with the *wrong* fleet status (a fleet id in a scenario without fleets file, none in one with fleets): the loader is documented to drop them, so they must never be admitted, let alone dispatched
+        if draw(st.integers(0, 11)) == 0:
+            requests[-1]["fleet"] = None if nf else draw(st.sampled_from(["fa", "fz"]))
+            requests[-1]["id"] = "m" + requests[-1]["id"]
     # complete, time-varying tariff table by station id (C11 generates the partial ones)
     prices = None
     price_key = "station_id"
@@ -253,6 +257,7 @@ def st_world(draw, prof: Optional[Dict[str, Any]] = None) -> Dict[str, Any]:
         "builtin": draw(st.sampled_from(p["builtin"])),
         "n_scripted": draw(st.sampled_from(p["n_scripted"])),
         "lazy": draw(st.booleans()),
+        "split_rows": draw(st.booleans()),
     }
 
 
@@ -286,7 +291,12 @@ def write_world(w: Dict[str, Any], d: Path, end_steps: int = 2000) -> Path:
     for s in w["stations"]:
         la, lo = _site(w, s["site"])
         for c, n, on in s["plugs"]:
-            rows.append(f"{s['id']},{la},{lo},{n},{c},{'true' if on else 'false'}")
+            if w.get("split_rows") and n >= 2:
+                # documented append semantics: a plug type repeated on a later row of the same station adds to the count
+                rows.append(f"{s['id']},{la},{lo},1,{c},{'true' if on else 'false'}")
+                rows.append(f"{s['id']},{la},{lo},{n - 1},{c},{'true' if on else 'false'}")
+            else:
+                rows.append(f"{s['id']},{la},{lo},{n},{c},{'true' if on else 'false'}")
     (d / "stations.csv").write_text("\n".join(rows) + "\n")
     rows = ["base_id,lat,lon,station_id,stall_count"]
     for b in w["bases"]:
@@ -294,11 +304,12 @@ def write_world(w: Dict[str, Any], d: Path, end_steps: int = 2000) -> Path:
         rows.append(f"{b['id']},{la},{lo},{b['station'] or ''},{b['stalls']}")
     (d / "bases.csv").write_text("\n".join(rows) + "\n")
     has_fleets = bool(w.get("fleet_ids"))
-    rows = ["request_id,o_lat,o_lon,d_lat,d_lon,departure_time,passengers" + (",fleet_id" if has_fleets else "")]
+    fleet_col = has_fleets or any(r.get("fleet") for r in w["requests"])
+    rows = ["request_id,o_lat,o_lon,d_lat,d_lon,departure_time,passengers" + (",fleet_id" if fleet_col else "")]
     for r in w["requests"]:
         o, dd = _site(w, r["o"]), _site(w, r["d"])
         tm = r.get("t_text", r["t"])
-        rows.append(f"{r['id']},{o[0]},{o[1]},{dd[0]},{dd[1]},{tm},{r['pax']}" + (f",{r['fleet']}" if has_fleets else ""))
+        rows.append(f"{r['id']},{o[0]},{o[1]},{dd[0]},{dd[1]},{tm},{r['pax']}" + (f",{r['fleet'] or ''}" if fleet_col else ""))
     (d / "requests.csv").write_text("\n".join(rows) + "\n")
     (d / "mechatronics.yaml").write_text(yaml.safe_dump(w.get("mechatronics") or MECHATRONICS_YAML))
     sim = {"sim_name": "w", "start_time": 0, "timestep_duration_seconds": 60}
